@@ -1,3 +1,167 @@
-import JSight.Basic
+import JSight.Model.Bans
+/-!
+C18 — `WithBannedDirectives`: the ban check is a pure filter in front of the context resolution.  Without a
+banned kind in the input the option changes nothing; with one, the project is rejected at its first
+occurrence and nothing after that keyword is looked at.
+-/
 namespace JSight.C18
+open JSight
+
+/-- lift a context-resolution result into the error type of the banned resolution -/
+def lift {α : Type} : Except CtxErr α → Except BanErr α
+  | .ok a => .ok a
+  | .error e => .error (.ctx e)
+
+/-- without banned kinds the banned loop is the plain loop -/
+theorem consumeAllBanned_frame (banned : List Gen.Kind) (c : Ctx) (toks : List Tok)
+    (h : ∀ d, Tok.dir d ∈ toks → banned.contains d.kind = false) :
+    consumeAllBanned banned c toks = lift (consumeAll c toks) := by
+  induction toks generalizing c with
+  | nil => rfl
+  | cons t r ih =>
+    have hr : ∀ d, Tok.dir d ∈ r → banned.contains d.kind = false :=
+      fun d hd => h d (List.mem_cons_of_mem _ hd)
+    cases t with
+    | close =>
+      simp only [consumeAllBanned, consumeAll, consume]
+      cases closeExplicit c.frames c.roots with
+      | error e => rfl
+      | ok c' => exact ih c' hr
+    | dir d =>
+      have hd : banned.contains d.kind = false := h d (List.mem_cons_self)
+      simp only [consumeAllBanned, consumeAll, consume, hd]
+      cases place c.frames c.roots d with
+      | error e => rfl
+      | ok c' => exact ih c' hr
+
+/-- a prefix without banned kinds that resolves is consumed exactly as by the plain loop -/
+theorem consumeAllBanned_append (banned : List Gen.Kind) (c c' : Ctx) (pre rest : List Tok)
+    (hpre : ∀ x, Tok.dir x ∈ pre → banned.contains x.kind = false)
+    (hok : consumeAll c pre = .ok c') :
+    consumeAllBanned banned c (pre ++ rest) = consumeAllBanned banned c' rest := by
+  induction pre generalizing c with
+  | nil =>
+    simp only [consumeAll] at hok
+    injection hok with hok
+    subst hok; rfl
+  | cons t r ih =>
+    have hr : ∀ d, Tok.dir d ∈ r → banned.contains d.kind = false :=
+      fun d hd => hpre d (List.mem_cons_of_mem _ hd)
+    cases t with
+    | close =>
+      simp only [consumeAll, consume] at hok
+      simp only [List.cons_append, consumeAllBanned]
+      cases hce : closeExplicit c.frames c.roots with
+      | error e => rw [hce] at hok; cases hok
+      | ok c₁ => rw [hce] at hok; exact ih c₁ hr hok
+    | dir d =>
+      have hd : banned.contains d.kind = false := hpre d (List.mem_cons_self)
+      simp only [consumeAll, consume] at hok
+      simp only [List.cons_append, consumeAllBanned, hd]
+      cases hpl : place c.frames c.roots d with
+      | error e => rw [hpl] at hok; cases hok
+      | ok c₁ => rw [hpl] at hok; exact ih c₁ hr hok
+
+/-- the loop never looks past a banned directive -/
+theorem consumeAllBanned_ignores_rest (banned : List Gen.Kind) (c : Ctx) (pre post₁ post₂ : List Tok) (d : Dir)
+    (hb : banned.contains d.kind = true) :
+    consumeAllBanned banned c (pre ++ Tok.dir d :: post₁) = consumeAllBanned banned c (pre ++ Tok.dir d :: post₂) := by
+  induction pre generalizing c with
+  | nil => simp only [List.nil_append, consumeAllBanned, hb, if_true]
+  | cons t r ih =>
+    cases t with
+    | close =>
+      simp only [List.cons_append, consumeAllBanned]
+      cases closeExplicit c.frames c.roots with
+      | error e => rfl
+      | ok c₁ => exact ih c₁
+    | dir x =>
+      simp only [List.cons_append, consumeAllBanned]
+      by_cases hx : banned.contains x.kind = true
+      · simp only [hx, if_true]
+      · simp only [hx]
+        cases place c.frames c.roots x with
+        | error e => rfl
+        | ok c₁ => exact ih c₁
+
+/-- no banned kind occurs ⇒ the option changes nothing -/
+theorem frame (banned : List Gen.Kind) (toks : List Tok)
+    (h : ∀ d, Tok.dir d ∈ toks → banned.contains d.kind = false) :
+    resolveBanned banned toks = (match resolve toks with | .ok f => .ok f | .error e => .error (.ctx e)) := by
+  unfold resolveBanned resolve
+  rw [consumeAllBanned_frame banned {} toks h]
+  cases consumeAll {} toks with
+  | error e => rfl
+  | ok c =>
+    simp only [lift]
+    cases anyExplicit c.frames <;> rfl
+
+/-- a banned kind occurs ⇒ rejected as not allowed at its FIRST occurrence, provided the tokens before it resolve
+    (otherwise the earlier context error wins) -/
+theorem banned_rejected (banned : List Gen.Kind) (pre post : List Tok) (d : Dir) (c : Ctx)
+    (hb : banned.contains d.kind = true) (hpre : ∀ x, Tok.dir x ∈ pre → banned.contains x.kind = false)
+    (hok : consumeAll {} pre = .ok c) :
+    resolveBanned banned (pre ++ Tok.dir d :: post) = .error (.notAllowed d.id) := by
+  unfold resolveBanned
+  rw [consumeAllBanned_append banned {} c pre _ hpre hok]
+  simp only [consumeAllBanned, hb, if_true]
+
+/-- (complement of `banned_rejected`) when the tokens before the first banned directive do not resolve,
+    the earlier context error is reported -/
+theorem earlier_error_wins (banned : List Gen.Kind) (pre post : List Tok) (d : Dir) (e : CtxErr)
+    (hpre : ∀ x, Tok.dir x ∈ pre → banned.contains x.kind = false)
+    (herr : consumeAll {} pre = .error e) :
+    resolveBanned banned (pre ++ Tok.dir d :: post) = .error (.ctx e) := by
+  have key : ∀ (c : Ctx) (pre : List Tok), (∀ x, Tok.dir x ∈ pre → banned.contains x.kind = false) →
+      consumeAll c pre = .error e →
+      consumeAllBanned banned c (pre ++ Tok.dir d :: post) = .error (.ctx e) := by
+    intro c pre
+    induction pre generalizing c with
+    | nil => intro _ h; simp only [consumeAll] at h; cases h
+    | cons t r ih =>
+      intro hpre herr
+      have hr : ∀ x, Tok.dir x ∈ r → banned.contains x.kind = false :=
+        fun x hx => hpre x (List.mem_cons_of_mem _ hx)
+      cases t with
+      | close =>
+        simp only [consumeAll, consume] at herr
+        simp only [List.cons_append, consumeAllBanned]
+        cases hce : closeExplicit c.frames c.roots with
+        | error e' => rw [hce] at herr; injection herr with herr; rw [herr]
+        | ok c₁ => rw [hce] at herr; exact ih c₁ hr herr
+      | dir x =>
+        have hx : banned.contains x.kind = false := hpre x (List.mem_cons_self)
+        simp only [consumeAll, consume] at herr
+        simp only [List.cons_append, consumeAllBanned, hx]
+        cases hpl : place c.frames c.roots x with
+        | error e' => rw [hpl] at herr; injection herr with herr; simp [herr]
+        | ok c₁ => rw [hpl] at herr; simpa using ih c₁ hr herr
+  unfold resolveBanned
+  rw [key {} pre hpre herr]
+
+/-- the result never depends on anything that follows the first banned directive -/
+theorem banned_ignores_rest (banned : List Gen.Kind) (pre post₁ post₂ : List Tok) (d : Dir)
+    (hb : banned.contains d.kind = true) :
+    resolveBanned banned (pre ++ Tok.dir d :: post₁) = resolveBanned banned (pre ++ Tok.dir d :: post₂) := by
+  unfold resolveBanned
+  rw [consumeAllBanned_ignores_rest banned {} pre post₁ post₂ d hb]
+
+/-- the empty ban set is the plain resolution -/
+theorem no_bans (toks : List Tok) :
+    resolveBanned [] toks = (match resolve toks with | .ok f => .ok f | .error e => .error (.ctx e)) :=
+  frame [] toks (fun _ _ => rfl)
+
+/-! non-vacuity (`decide +kernel`: `place` / `closeAll` are defined by well-founded recursion, which the
+elaborator's `decide` does not unfold; the kernel evaluates them, no axiom is added), on the real admissibility tables: `URL GET INCLUDE …` with INCLUDE banned is rejected at the
+INCLUDE (id 2); with nothing banned the same prefix resolves -/
+example : (match resolveBanned [Gen.Kind.Include]
+      [.dir { kind := .URL, id := 0 }, .dir { kind := .Get, id := 1 }, .dir { kind := .Include, id := 2 },
+       .close, .close] with
+    | .error (.notAllowed 2) => true
+    | _ => false) = true := by decide +kernel
+example : (match resolveBanned [Gen.Kind.Include]
+      [.dir { kind := .URL, id := 0 }, .dir { kind := .Get, id := 1 }] with
+    | .ok [.node u [.node g []]] => u.id == 0 && g.id == 1
+    | _ => false) = true := by decide +kernel
+
 end JSight.C18
